@@ -38,7 +38,13 @@ func verifReplaceAllFunc(re *regexp.Regexp, src []byte, repl func([]byte) []byte
 	copy(out, src)
 	if verifapi.Bool("pass.matches") {
 		verifLastChanged = true
-		out = append(out, '#') // a pass that matches changes the text (F1: every match contains an address)
+		// a pass that matches changes the text (F1: every match contains an address) - its
+		// length may or may not change (an address can be as long as the placeholder)
+		if len(out) > 0 && verifapi.Bool("pass.keepsLength") {
+			out[0] ^= 0x01
+		} else {
+			out = append(out, '#')
+		}
 	} else {
 		verifLastChanged = false
 	}
@@ -87,7 +93,18 @@ func (o *verifOut) Write(p []byte) (int, error) {
 	return len(p), nil
 }
 
-func verifScrubIdentity(b []byte) []byte { return b }
+// Scrub as a marking function: every byte that went through it has its top bit set (newlines
+// are kept), so the sink can tell scrubbed from unscrubbed bytes.
+func verifScrubIdentity(b []byte) []byte {
+	o := make([]byte, len(b))
+	for i := range b {
+		o[i] = b[i]
+		if b[i] != '\n' {
+			o[i] |= 0x80
+		}
+	}
+	return o
+}
 
 // VerifC07_LineBuffering: for every byte string b and every split point, one Write(b) and
 // Write(b[:k]); Write(b[k:]) emit the same bytes - the longest prefix of b ending in a
@@ -96,6 +113,9 @@ func VerifC07_LineBuffering() {
 	b := verifapi.Bytes("b", verifapi.Param("blen", 5))
 	n := verifapi.Concrete(len(b))
 	b = b[:n]
+	for i := 0; i < n; i++ {
+		verifapi.Assume(b[i] < 0x80) // log text; the top bit is the harness's "went through Scrub" mark
+	}
 	k := verifapi.Concrete(verifapi.Choice("split", 7))
 	verifapi.Assume(k <= n)
 	one, two := &verifOut{}, &verifOut{}
@@ -116,7 +136,12 @@ func VerifC07_LineBuffering() {
 	verifapi.Assert(len(one.buf) == last+1, "the complete lines - and nothing after the last newline - are emitted")
 	verifapi.Assert(len(two.buf) == len(one.buf), "the output does not depend on how the bytes are split across writes")
 	for i := 0; i <= last; i++ {
-		verifapi.Assert(one.buf[i] == b[i] && two.buf[i] == b[i], "the emitted bytes are the written bytes, in order")
+		want := b[i]
+		if want != '\n' {
+			want |= 0x80
+		}
+		verifapi.Assert(one.buf[i] == want, "every emitted byte went through the scrubber, in order")
+		verifapi.Assert(two.buf[i] == want, "every emitted byte went through the scrubber however the bytes were split across writes")
 	}
 	verifapi.Assert(len(ls1.buffer) == n-(last+1) && len(ls2.buffer) == n-(last+1), "the unfinished line is held back")
 }
